@@ -27,14 +27,14 @@ QTYPES = [12, 1, 28, 33, 16, 255, 47, 99]
 
 def floors(tier):
     q = tier == "quick"
-    return {"c03.answers": 20000 if q else 1500000, "c03.additionals": 3000 if q else 200000, "c03.wire": 300 if q else 20000}
+    return {"c03.answers": 200000 if q else 15000000, "c03.additionals": 30000 if q else 2000000, "c03.wire": 1500 if q else 150000}
 
 
 def plan(tier, seed):
     if tier == "quick":
-        n, per = 16, 9
+        n, per = 16, 40
     else:
-        n, per = 64, 320
+        n, per = 64, 1200
     return [{"seed": seed, "shard": i, "per": per, "tier": tier} for i in range(n)]
 
 
